@@ -296,6 +296,9 @@ class World:
             socket=lambda *a, **k: LSock(world), AF_INET=2, SOCK_STREAM=1, IPPROTO_TCP=6, TCP_NODELAY=1,
             SOL_SOCKET=1, SO_REUSEADDR=2, MSG_WAITALL=MSG_WAITALL, getprotobyname=lambda n: 6)
         PC.time = types.SimpleNamespace(perf_counter=self._cli_clock, sleep=lambda s: None, time=self._cli_clock)
+        from .rebind import rebind          # the same stand-ins under any import style of manager.py / client.py
+        rebind(PM, {"socket": PM.socket, "time": PM.time, "random": PM.random, "select": PM.select})
+        rebind(PC, {"select": PC.select, "socket": PC.socket, "time": PC.time})
         self._cclock = 0.0
         self.mgr = PM.MessageManager(ip_address="", port=7111, timecode=False, log_level=100, send_msg_timing=False)
         self.mgr.logger_modules = OrderedSet()
